@@ -45,6 +45,8 @@ def jobs(tier):
             fx = {"mask": mask, "o1": 0}
             if not mask:
                 fx["o0"] = 0
+            if q and mask and t == "t_slice_let":
+                continue        # with the quick window every override of the alias bound invalidates the alias
             out.extend(tjobs(f"{H}:c14_pipeline", t, tier, fixed=fx, extra_params=ep, extra_pre=pre, timeout=400 if q else 1500,
                              shrink=(window(t, tier, 1 if not mask else 0, wide=(["i"] if t not in ("t_macro_sub", "t_blocks") else [])) if q else None),
                              functions=["Builder.build", "Builder.build_array_item", "Builder.add_to_context", "Builder.get_gate_definition", "AbstractGate.call",
